@@ -97,6 +97,13 @@ class IrTr:
                 cc = show(args[0])
                 a, wa = self.value(args[1])
                 return '(ir_icmp %s %d %s (ir_iconst %d %s))' % (CC[cc], wa, a, wa, self.scalar(args[2])), 8
+            if op == 'select' and type(self) is IrTr:
+                c, wc = self.value(args[0])
+                a, wa = self.value(args[1])
+                b, wb = self.value(args[2])
+                if wa != wb:
+                    raise Unsupported("select on different widths")
+                return '(ir_select %s %s %s)' % (c, a, b), wa
             raise Unsupported("IR instruction %s" % op)
         raise Unsupported("IR value %s" % show(e)[:60])
 
@@ -144,6 +151,7 @@ def gen_clir(src_dir):
     sig, body = R.parse_fn(toks, 'build_function_prelude')
     tr = IrTr(toks, {})
     defs = {}
+    regdefs = {}
     params = {}
     for st in body[1]:
         if st[0] == 'let' and st[1][0] == 'ppath' and st[3] is not None:
@@ -169,12 +177,21 @@ def gen_clir(src_dir):
             if tgt[0] == 'field' and show(tgt[1]) == 'self' and tgt[2] in ('mem_start', 'mem_end', 'mbuf_start', 'mbuf_end', 'stack_start', 'stack_end'):
                 t, w = tr.value(val)
                 defs[tgt[2]] = t
+            if tgt[0] == 'index' and show(tgt[1]).replace(' ', '') == 'self.registers' and tgt[2][0] == 'num':
+                t, w = tr.value(val)
+                if tgt[2][1] in regdefs:
+                    raise Unsupported("prelude: register %d defined twice" % tgt[2][1])
+                regdefs[tgt[2][1]] = t
     need = ['stack_start', 'stack_end', 'mem_start', 'mem_end', 'mbuf_start', 'mbuf_end']
     if sorted(defs) != sorted(need):
         raise Unsupported("prelude: bounds variables defined: %s" % sorted(defs))
     out.append("(* p0..p3 = the compiled function's parameters (mem ptr, mem len, mbuf ptr, mbuf len); stack_slot = address of the 512-byte slot *)\n"
                "Definition gen_prelude_vars (p0 p1 p2 p3 stack_slot stack_size : Z) : clvars :=\n  {| %s |}.\n\n"
                % '; '.join('v_%s := %s' % (k, defs[k]) for k in need))
+    # the eBPF registers the prelude defines (the others are declared only: Cranelift reads an undefined variable as 0)
+    out.append("(* registers defined by the prelude: (eBPF register, value) *)\n"
+               "Definition gen_prelude_regs (p0 p1 p2 p3 stack_slot stack_size : Z) : list (Z * Z) :=\n  [%s].\n\n"
+               % '; '.join('(%d, %s)' % (k, regdefs[k]) for k in sorted(regdefs)))
     # --- the three access helpers: the check comes first and uses the same type, base and offset as the access
     for fn, acc in (('reg_load', 'load'), ('reg_store', 'store'), ('reg_atomic_add', 'atomic_rmw')):
         sig, body = R.parse_fn(toks, fn)
@@ -1876,4 +1893,171 @@ def gen_jitmisc(src_dir):
             done.add(n)
     if done != {'LE', 'BE', 'LD_DW_IMM', 'CALL'}:
         raise Unsupported("arms found: %s" % sorted(done))
+    return ''.join(out)
+
+
+# ------------------------------------------------------------------ src/jit.rs: prologue and epilogue of jit_compile, the local call
+
+def gen_jitframe(src_dir):
+    env, _ = U.read_consts(src_dir)
+    toks = U.load(src_dir, 'jit.rs')
+    consts = {}
+    for name, ty, e_, line in R.consts(toks):
+        try:
+            consts[name] = U.eval_const(e_, env)
+        except Unsupported:
+            pass
+    # REGISTER_MAP
+    regs = None
+    for i in range(len(toks) - 3):
+        if toks[i][1] == 'const' and toks[i + 1][1] == 'REGISTER_MAP':
+            j = i
+            while toks[j][1] != '=':
+                j += 1
+            k = R.find_matching(toks, j + 1)
+            regs = [consts[t_[1]] for t_ in toks[j + 2:k] if t_[0] == 'id']
+            break
+    if regs is None:
+        raise Unsupported("REGISTER_MAP not found")
+    sizes = {'OperandSize::S8': '8', 'OperandSize::S16': '16', 'OperandSize::S32': '32', 'OperandSize::S64': '64'}
+
+    def val(e):
+        while e[0] == 'paren':
+            e = e[1]
+        if e[0] == 'num':
+            return e[1]
+        if e[0] == 'path' and e[1] in consts:
+            return consts[e[1]]
+        if e[0] == 'path' and e[1].startswith('ebpf::') and e[1][6:] in env:
+            return env[e[1][6:]][1]
+        if e[0] == 'call' and show(e[1]) == 'map_register' and len(e[2]) == 1:
+            k = val(e[2][0])
+            if not 0 <= k < len(regs):
+                raise Unsupported("map_register(%d)" % k)
+            return regs[k]
+        if e[0] == 'as':
+            return val(e[1])
+        if e[0] == 'bin' and e[1] == '+':
+            return val(e[2]) + val(e[3])
+        if e[0] == 'bin' and e[1] in ('!=', '=='):
+            r = val(e[2]) == val(e[3])
+            return r if e[1] == '==' else not r
+        raise Unsupported("frame code: value %s" % show(e)[:50])
+
+    def calls(sts, sel=None):
+        """encoder calls of a statement list; sel = (use_mbuff, update_data_ptr) picks the arm of the match on that pair"""
+        out = []
+        i = 0
+        sts = list(sts)
+        while i < len(sts):
+            st = sts[i]
+            if st[0] not in ('stmt', 'tail'):
+                raise Unsupported("frame code: let")
+            e = st[1]
+            if e[0] == 'if':
+                c = val(e[1])
+                if c is True:
+                    out += calls(e[2][1], sel)
+                elif c is False:
+                    if e[3] is not None:
+                        out += calls(e[3][1], sel)
+                else:
+                    raise Unsupported("frame code: condition %s" % show(e[1])[:50])
+                i += 1
+                continue
+            if e[0] == 'match' and e[1][0] == 'tuple' and [show(x) for x in e[1][1]] == ['use_mbuff', 'update_data_ptr']:
+                hit = None
+                for pat, guard, b, ln, attrs in e[2]:
+                    if pat[0] != 'ptuple' or len(pat[1]) != 2:
+                        raise Unsupported("frame code: pattern")
+                    ok = True
+                    for p, v in zip(pat[1], sel):
+                        if p[0] == 'pwild':
+                            continue
+                        if p[0] == 'ppath' and p[1] in ('true', 'false'):
+                            ok = ok and ((p[1] == 'true') == v)
+                        else:
+                            raise Unsupported("frame code: pattern %s" % str(p))
+                    if ok:
+                        hit = b
+                        break
+                if hit is None:
+                    raise Unsupported("frame code: no arm for %s" % str(sel))
+                out += calls(hit[1] if hit[0] == 'block' else [('stmt', hit, 0, [])], sel)
+                i += 1
+                continue
+            if e[0] == 'mcall' and show(e[1]) == 'self' and e[3] and show(e[3][0]) == 'mem':
+                fn = e[2]
+                a = e[3][1:]
+                if fn == 'emit1' and val(a[0]) == 0xe8 and i + 1 < len(sts) and sts[i + 1][1][0] == 'mcall' and sts[i + 1][1][2] == 'emit4':
+                    out.append('XCallRel %d' % val(sts[i + 1][1][3][1]))
+                    i += 2
+                    continue
+                if fn == 'emit1' and val(a[0]) == 0xe8 and i + 1 < len(sts) and sts[i + 1][1][0] == 'mcall' and sts[i + 1][1][2] == 'emit_jump_offset':
+                    out.append('XCallPc')
+                    i += 2
+                    continue
+                if fn == 'emit1' and val(a[0]) == 0xc3:
+                    out.append('XRet')
+                    i += 1
+                    continue
+                if fn in ('emit_load', 'emit_store'):
+                    ctor = 'XLoad' if fn == 'emit_load' else 'XStore'
+                    out.append('%s %s %s' % (ctor, sizes[show(a[0])], ' '.join(zl(val(x)) for x in a[1:])))
+                    i += 1
+                    continue
+                if fn == 'set_anchor':
+                    i += 1
+                    continue
+                if fn in XI_SEQ:
+                    ctor, n = XI_SEQ[fn]
+                    if len(a) != n:
+                        raise Unsupported("%s arity" % fn)
+                    out.append('%s %s' % (ctor, ' '.join(zl(val(x)) for x in a)))
+                    i += 1
+                    continue
+            if e[0] == 'mcall' and show(e[1]) == 'self' and e[2] == 'set_anchor':
+                i += 1
+                continue
+            raise Unsupported("frame code: statement %s" % show(e)[:60])
+        return out
+
+    def zl(v):
+        return '(%d)' % v if v < 0 else str(v)
+    for name, ty, e_, line in R.consts(toks):
+        if name not in consts:
+            try:
+                consts[name] = val(e_)
+            except Unsupported:
+                pass
+    sig, body = R.parse_fn(toks, 'jit_compile')
+    sts = list(body[1])
+    # prologue: up to the assignment of self.pc_locs; epilogue: after the while loop up to the final Ok(())
+    pro_end = None
+    loop_at = None
+    for k, st in enumerate(sts):
+        if st[0] == 'stmt' and st[1][0] == 'assign' and show(st[1][2]).replace(' ', '') == 'self.pc_locs' and pro_end is None:
+            pro_end = k
+        if st[0] in ('stmt', 'tail') and st[1][0] == 'while':
+            loop_at = k
+    if pro_end is None or loop_at is None or loop_at < pro_end:
+        raise Unsupported("jit_compile: prologue / loop not found")
+    between = sts[pro_end + 1:loop_at]
+    if not (len(between) == 1 and between[0][0] == 'let' and between[0][1][1] == 'insn_ptr'):
+        raise Unsupported("jit_compile: code between the prologue and the loop")
+    tail = sts[loop_at + 1:]
+    if not (tail and tail[-1][0] == 'tail' and show(tail[-1][1]).replace(' ', '') == 'Ok(())'):
+        raise Unsupported("jit_compile: end of function")
+    out = [U.HDR % 'src/jit.rs (jit_compile: prologue per VM kind, epilogue; emit_local_call)',
+           "From RbpfV Require Import Ebpf X86Sem.\n\n"]
+    for nm, sel in (('nombuff', (False, False)), ('mbuff', (True, False)), ('fixed', (True, True))):
+        cs = calls(sts[:pro_end], sel)
+        out.append("Definition gen_jit_prologue_%s : list xi :=\n  [%s].\n\n" % (nm, '; '.join(cs)))
+    cs2 = calls(sts[:pro_end], (False, True))
+    if cs2 != calls(sts[:pro_end], (False, False)):
+        raise Unsupported("prologue without metadata buffer depends on update_data_ptr")
+    out.append("Definition gen_jit_epilogue : list xi :=\n  [%s].\n\n" % '; '.join(calls(tail[:-1])))
+    sig2, body2 = R.parse_fn(toks, 'emit_local_call')
+    out.append("Definition gen_jit_local_call : list xi :=\n  [%s].\n\n" % '; '.join(calls(body2[1])))
+    out.append("Definition gen_jit_stack_size : Z := %d.\n" % env['STACK_SIZE'][1])
     return ''.join(out)
